@@ -46,6 +46,46 @@ theorem abort_keeps_original (fs0 : FS) (jobs : List Job) (wf : WF fs0 jobs) (n 
     · rw [he] at h; cases h; exact absurd rfl hc
   · exact f1 hm
 
+/-- **never_partial** (two-state atomicity).  At every kill point a target holds either exactly
+    its original bytes or exactly the complete output of its run — never a prefix of the output,
+    never a mixture, never nothing. -/
+theorem never_partial (fs0 : FS) (jobs : List Job) (wf : WF fs0 jobs) (n : Nat)
+    (j : Job) (hj : j ∈ jobs) :
+    (exec fs0 ((protocol jobs).take n)).content j.path = fs0.content j.path ∨
+    (exec fs0 ((protocol jobs).take n)).content j.path = some j.output := by
+  obtain ⟨f1, f2⟩ := original_until_rename fs0 jobs wf n j hj
+  by_cases hm : Op.rename j.tmp j.path ∈ (protocol jobs).take n
+  · exact Or.inr (f2 hm).2.1
+  · exact Or.inl (by simp [FS.content, f1 hm])
+
+/-- **replacement_is_final.**  Once a kill point `n` sees the new contents because the rename has
+    happened, every later kill point `m ≥ n` (and the completed run) sees the same complete
+    output: the file is never reverted or rewritten afterwards. -/
+theorem replacement_is_final (fs0 : FS) (jobs : List Job) (wf : WF fs0 jobs) (n m : Nat) (hnm : n ≤ m)
+    (j : Job) (hj : j ∈ jobs) (hr : Op.rename j.tmp j.path ∈ (protocol jobs).take n) :
+    (exec fs0 ((protocol jobs).take m)).content j.path = some j.output := by
+  have hm : Op.rename j.tmp j.path ∈ (protocol jobs).take m := by
+    have e : (protocol jobs).take n = ((protocol jobs).take m).take n := by
+      rw [List.take_take, Nat.min_eq_left hnm]
+    rw [e] at hr
+    exact List.mem_of_mem_take hr
+  exact ((original_until_rename fs0 jobs wf m j hj).2 hm).2.1
+
+/-- **target_always_exists.**  At no kill point is a target missing (there is no window between
+    removing the old file and installing the new one). -/
+theorem target_always_exists (fs0 : FS) (jobs : List Job) (wf : WF fs0 jobs) (n : Nat)
+    (j : Job) (hj : j ∈ jobs) :
+    (exec fs0 ((protocol jobs).take n) j.path).isSome = true := by
+  obtain ⟨f1, f2⟩ := original_until_rename fs0 jobs wf n j hj
+  by_cases hm : Op.rename j.tmp j.path ∈ (protocol jobs).take n
+  · have h := (f2 hm).2.1
+    cases hx : exec fs0 ((protocol jobs).take n) j.path with
+    | none => simp [FS.content, hx] at h
+    | some v => rfl
+  · rw [f1 hm]
+    obtain ⟨c, mo, hfs, _⟩ := wf.path_exists j hj
+    simp [hfs]
+
 /-- Nothing but targets and temp files is ever touched, at any kill point. -/
 theorem others_untouched (fs0 : FS) (jobs : List Job) (wf : WF fs0 jobs) (n : Nat) (q : Path)
     (hq : ∀ a ∈ jobs, q ≠ a.tmp ∧ q ≠ a.path) :
